@@ -525,6 +525,8 @@ class SubqueryTable(tables.Table):
 
 
 class EvalConstantSubquery1D(EvalNode):
+    __slots__ = ('subquery', 'value')
+
     def __init__(self, subquery):
         # There is no support yet for list specialization, thus the
         # type of the columns returned by the subquery cannot be taken
